@@ -13,11 +13,12 @@ Section Rf3.
 Variable H : bytes -> bytes.
 Hypothesis Hlen : forall x, length (H x) = 32.
 Variable atomic : bool.
+Variable climit : nat.
 
 Notation enc := (enc H).
 Notation lrep := (lrep H).
 Notation canb := (canb H).
-Notation inv_st := (inv_st H).
+Notation inv_st := (inv_st H climit).
 Notation crep := (crep H).
 
 Definition good (h : nat) (kvs : Model.batch bytes) : Prop :=
@@ -120,12 +121,12 @@ Definition bgo_gen (rec : rec_t) (h : nat) (st1 : store) (root : bytes) (kvs1 : 
   | [], _ =>
       match rec st1 rnode rb b1 (2 * i' + 2) (true :: rp) with
       | None => None
-      | Some (st2, b2, rn, d) => finish H atomic st2 lnode rn root b2 i' h d
+      | Some (st2, b2, rn, d) => finish H atomic climit st2 lnode rn root b2 i' h d
       end
   | _, [] =>
       match rec st1 lnode lb b1 (2 * i' + 1) (false :: rp) with
       | None => None
-      | Some (st2, b2, ln, d) => finish H atomic st2 ln rnode root b2 i' h d
+      | Some (st2, b2, ln, d) => finish H atomic climit st2 ln rnode root b2 i' h d
       end
   | _, _ =>
       match rec st1 lnode lb b1 (2 * i' + 1) (false :: rp) with
@@ -133,17 +134,17 @@ Definition bgo_gen (rec : rec_t) (h : nat) (st1 : store) (root : bytes) (kvs1 : 
       | Some (st2, b2, ln, dl) =>
           match rec st2 rnode rb b2 (2 * i' + 2) (true :: rp) with
           | None => None
-          | Some (st3, b3, rn, dr) => finish H atomic st3 ln rn root b3 i' h (dl || dr)
+          | Some (st3, b3, rn, dr) => finish H atomic climit st3 ln rn root b3 i' h (dl || dr)
           end
       end
   end.
 
 Lemma bgo_unfold rec h st1 root kvs1 b1 i' lnode rnode rp :
-  bgo H atomic rec h st1 root kvs1 b1 i' lnode rnode rp =
+  bgo H atomic climit rec h st1 root kvs1 b1 i' lnode rnode rp =
   match lnode, rnode, kvs1 with
   | [], [], [(k, None)] => Some (st1, b1, [], true)
   | [], [], [(k, Some v)] =>
-      let '(st2, b2, n) := leaf_hash_b H atomic st1 (bits_to_bytes (rev_append rp k)) v root b1 i' h in Some (st2, b2, n, false)
+      let '(st2, b2, n) := leaf_hash_b H atomic climit st1 (bits_to_bytes (rev_append rp k)) v root b1 i' h in Some (st2, b2, n, false)
   | _, _, _ => bgo_gen rec h st1 root kvs1 b1 i' lnode rnode rp
   end.
 Proof.
@@ -156,16 +157,17 @@ Lemma after_children st l' r' root b1 b2 i h' rp d st' b' n d' :
   lvl (S h') i -> length b1 = 31 -> length b2 = 31 ->
   crep h' b2 (2 * i + 1) (false :: rp) l' -> crep h' b2 (2 * i + 2) (true :: rp) r' ->
   (forall j, j <= 30 -> underb i j = false -> bget b2 j = bget b1 j) ->
-  finish H atomic st (enc h' (false :: rp) l') (enc h' (true :: rp) r') root b2 i (S h') d = Some (st', b', n, d') ->
+  finish H atomic climit st (enc h' (false :: rp) l') (enc h' (true :: rp) r') root b2 i (S h') d = Some (st', b', n, d') ->
   (d' = snd (join l' r' d) /\ n = enc (S h') rp (fst (join l' r' d)) /\ inv_st st' /\ length b' = 31 /\
    (i <> 0 -> lrep (S h') b' i rp (fst (join l' r' d)) /\
-              forall j, j <= 30 -> underb i j = false -> bget b' j = bget b1 j))
+              forall j, j <= 30 -> underb i j = false -> bget b' j = bget b1 j) /\
+   (i = 0 -> climit <= S h' -> cache_res st' root b'))
   \/ hash_break H.
 Proof.
   intros Hinv Hh Wl Wr Vl Vr Hl L1 L2 Cl Cr Hf Ef.
-  destruct (finish_spec H Hlen atomic st l' r' root b2 i h' rp d st' b' n d' Hinv Hh Wl Wr Vl Vr Hl L2 Cl Cr Ef)
-    as [(A1 & A2 & A3 & A4 & A5)|B]; [left|right; exact B].
-  split; [exact A1|]. split; [exact A2|]. split; [exact A3|]. split; [exact A4|].
+  destruct (finish_spec H Hlen atomic climit st l' r' root b2 i h' rp d st' b' n d' Hinv Hh Wl Wr Vl Vr Hl L2 Cl Cr Ef)
+    as [(A1 & A2 & A3 & A4 & A5 & A8)|B]; [left|right; exact B].
+  split; [exact A1|]. split; [exact A2|]. split; [exact A3|]. split; [exact A4|]. split; [|exact A8].
   intros Hi0. destruct (A5 Hi0) as [A6 A7]. split; [exact A6|].
   intros j Hj Hu. rewrite A7 by auto. apply Hf; auto.
 Qed.
@@ -195,7 +197,8 @@ Lemma bgo_gen_spec h' (rec : rec_t) st1 root kvs1 b1 i rp l r st' b' n' d :
   (d = snd (go_split (update h') l r kvs1) /\ n' = enc (S h') rp (fst (go_split (update h') l r kvs1)) /\
    inv_st st' /\ length b' = 31 /\
    (i <> 0 -> lrep (S h') b' i rp (fst (go_split (update h') l r kvs1)) /\
-              forall j, j <= 30 -> underb i j = false -> bget b' j = bget b1 j))
+              forall j, j <= 30 -> underb i j = false -> bget b' j = bget b1 j) /\
+   (i = 0 -> climit <= S h' -> cache_res st' root b'))
   \/ hash_break H.
 Proof.
   intros Hrec Hinv Hh Hl L Wl Wr Vl Vr Cal Car G Cl Cr Sl Sr Eg.
@@ -254,7 +257,7 @@ Qed.
 (** ---- bgo: the special single-key cases and the split branch ---- *)
 Lemma bgo_general (rec : rec_t) h st1 root kvs1 b1 i' lnode rnode rp :
   (lnode <> [] \/ rnode <> [] \/ (forall k ov, kvs1 <> [(k, ov)])) ->
-  bgo H atomic rec h st1 root kvs1 b1 i' lnode rnode rp = bgo_gen rec h st1 root kvs1 b1 i' lnode rnode rp.
+  bgo H atomic climit rec h st1 root kvs1 b1 i' lnode rnode rp = bgo_gen rec h st1 root kvs1 b1 i' lnode rnode rp.
 Proof.
   intros Hc. rewrite bgo_unfold. destruct lnode; [|reflexivity]. destruct rnode; [|reflexivity].
   destruct kvs1 as [|[k [v|]] [|? ?]]; try reflexivity; exfalso;
@@ -283,11 +286,12 @@ Lemma bgo_spec h' (rec : rec_t) st1 root kvs1 b1 i rp l r st' b' n' d :
   wf h' l -> wf h' r -> vals32 l -> vals32 r -> canon l -> canon r -> good (S h') kvs1 ->
   crep h' b1 (2 * i + 1) (false :: rp) l -> crep h' b1 (2 * i + 2) (true :: rp) r ->
   bget b1 (2 * i + 1) = enc h' (false :: rp) l -> bget b1 (2 * i + 2) = enc h' (true :: rp) r ->
-  bgo H atomic rec (S h') st1 root kvs1 b1 i (enc h' (false :: rp) l) (enc h' (true :: rp) r) rp = Some (st', b', n', d) ->
+  bgo H atomic climit rec (S h') st1 root kvs1 b1 i (enc h' (false :: rp) l) (enc h' (true :: rp) r) rp = Some (st', b', n', d) ->
   (d = snd (go (update h') l r kvs1) /\ n' = enc (S h') rp (fst (go (update h') l r kvs1)) /\
    inv_st st' /\ length b' = 31 /\
    (i <> 0 -> lrep (S h') b' i rp (fst (go (update h') l r kvs1)) /\
-              forall j, j <= 30 -> underb i j = false -> bget b' j = bget b1 j))
+              forall j, j <= 30 -> underb i j = false -> bget b' j = bget b1 j) /\
+   (i = 0 -> climit <= S h' -> (alookup (cache st1) (map_key root) = None \/ l <> E \/ r <> E) -> cache_res st' root b'))
   \/ hash_break H.
 Proof.
   intros Hrec Hinv Hh Hl L Wl Wr Vl Vr Cal Car G Cl Cr Sl Sr Eg.
@@ -296,10 +300,13 @@ Proof.
     (d = snd (go (update h') l r kvs1) /\ n' = enc (S h') rp (fst (go (update h') l r kvs1)) /\
      inv_st st' /\ length b' = 31 /\
      (i <> 0 -> lrep (S h') b' i rp (fst (go (update h') l r kvs1)) /\
-                forall j, j <= 30 -> underb i j = false -> bget b' j = bget b1 j)) \/ hash_break H).
+                forall j, j <= 30 -> underb i j = false -> bget b' j = bget b1 j) /\
+     (i = 0 -> climit <= S h' -> (alookup (cache st1) (map_key root) = None \/ l <> E \/ r <> E) -> cache_res st' root b')) \/ hash_break H).
   { intros Hc. rewrite (go_general (update h') l r kvs1 Sk Hc).
     rewrite bgo_general in Eg.
-    - apply (bgo_gen_spec h' rec st1 root kvs1 b1 i rp l r st' b' n' d); auto.
+    - destruct (bgo_gen_spec h' rec st1 root kvs1 b1 i rp l r st' b' n' d Hrec Hinv Hh Hl L Wl Wr Vl Vr Cal Car G Cl Cr Sl Sr Eg)
+        as [(X1 & X2 & X3 & X4 & X5 & X6)|B]; [left|right; exact B].
+      split; [exact X1|]. split; [exact X2|]. split; [exact X3|]. split; [exact X4|]. split; [exact X5|]. intros A B _. exact (X6 A B).
     - destruct Hc as [Hc|[Hc|Hc]]; [left|right; left|right; right; exact Hc]; intros Hn; apply (enc_nil H) in Hn; contradiction. }
   destruct l as [|lk lv|ll lr]; [|apply General; left; discriminate|apply General; left; discriminate].
   destruct r as [|rk rv|rl rr]; [|apply General; right; left; discriminate|apply General; right; left; discriminate].
@@ -308,22 +315,23 @@ Proof.
   - (* a single key set in an empty subtree: store as shortcut *)
     left. rewrite bgo_unfold in Eg. change (enc h' (false :: rp) E) with (@nil N) in Eg. change (enc h' (true :: rp) E) with (@nil N) in Eg.
     cbv iota in Eg.
-    destruct (leaf_hash_b H atomic st1 (bits_to_bytes (rev_append rp k)) v root b1 i (S h')) as [[st2 b2] n2] eqn:El.
+    destruct (leaf_hash_b H atomic climit st1 (bits_to_bytes (rev_append rp k)) v root b1 i (S h')) as [[st2 b2] n2] eqn:El.
     injection Eg as <- <- <- <-.
     assert (Hk : length k = S h') by (inversion K; auto).
     assert (Hv : length v = 32) by (inversion Bv; auto).
     pose proof (crep_E_clean H h' b1 i 1 _ Hl (or_introl eq_refl) L Cl) as C1.
     pose proof (crep_E_clean H h' b1 i 2 _ Hl (or_intror eq_refl) L Cr) as C2.
-    destruct (leaf_hash_spec H Hlen atomic st1 k v root b1 i (S h') rp st2 b2 n2 Hinv Hh Hk Hv Hl L C1 C2 El) as (A1 & A2 & A3 & A4 & A5).
+    destruct (leaf_hash_spec H Hlen atomic climit st1 k v root b1 i (S h') rp st2 b2 n2 Hinv Hh Hk Hv Hl L C1 C2 El) as (A1 & A2 & A3 & A4 & A5 & A6).
     simpl go. split; [reflexivity|]. split; [exact A1|]. split; [exact A2|]. split; [exact A3|].
-    intros Hi0. split; [exact A4|exact (A5 Hi0)].
+    split; [intros Hi0; split; [exact A4|exact (A5 Hi0)]|]. intros A B _. exact (A6 A B).
   - (* a single delete in an empty subtree *)
     left. rewrite bgo_unfold in Eg. change (enc h' (false :: rp) E) with (@nil N) in Eg. change (enc h' (true :: rp) E) with (@nil N) in Eg.
     cbv iota in Eg. injection Eg as <- <- <- <-.
     pose proof (crep_E_clean H h' b1 i 1 _ Hl (or_introl eq_refl) L Cl) as C1.
     pose proof (crep_E_clean H h' b1 i 2 _ Hl (or_intror eq_refl) L Cr) as C2.
     simpl go. split; [reflexivity|]. split; [reflexivity|]. split; [exact Hinv|]. split; [exact L|].
-    intros _. split; [|auto]. cbn [BatchRep.lrep]. apply clean_from_children; auto.
+    split; [intros _; split; [|auto]; cbn [BatchRep.lrep]; apply clean_from_children; auto|].
+    intros _ _ [Hn|[Hn|Hn]]; [|congruence|congruence]. intros bx Hx. congruence.
 Qed.
 
 (** ---- the body after loadChildren ---- *)
@@ -341,10 +349,11 @@ Definition is_leaf (t : tree bytes) : bool := match t with Lf _ _ => true | _ =>
 Lemma bbody_spec h' (rec : rec_t) st root kvs b i rp t st' b' n' d :
   rec_ok h' rec -> inv_st st -> length rp + S h' = 256 -> wf (S h') t -> vals32 t -> canon t -> good (S h') kvs ->
   lvl (S h') i -> length b = 31 -> lrep (S h') b i rp t ->
-  bbody H atomic rec (S h') st root kvs b i (bget b (2 * i + 1)) (bget b (2 * i + 2)) (is_leaf t) rp = Some (st', b', n', d) ->
+  bbody H atomic climit rec (S h') st root kvs b i (bget b (2 * i + 1)) (bget b (2 * i + 2)) (is_leaf t) rp = Some (st', b', n', d) ->
   (d = snd (update (S h') t kvs) /\ n' = enc (S h') rp (fst (update (S h') t kvs)) /\ inv_st st' /\ length b' = 31 /\
    (i <> 0 -> lrep (S h') b' i rp (fst (update (S h') t kvs)) /\
-              forall j, j <= 30 -> underb i j = false -> bget b' j = bget b j))
+              forall j, j <= 30 -> underb i j = false -> bget b' j = bget b j) /\
+   (i = 0 -> climit <= S h' -> t <> E -> cache_res st' root b'))
   \/ hash_break H.
 Proof.
   intros Hrec Hinv Hh W V C G Hl L R Eb.
@@ -355,8 +364,10 @@ Proof.
     cbn [BatchRep.lrep] in R. destruct (clean_children b i Hi R) as (A1 & A2 & C1 & C2).
     destruct kvs as [|kv0 kvs0] eqn:Ek; [congruence|]. rewrite <- Ek in *.
     rewrite A1, A2 in Eb.
-    apply (bgo_spec h' rec st root kvs b i rp E E st' b' n' d); auto; try exact I; try apply wf_E;
-      unfold BatchRefine1.crep; destruct (Nat.eqb (h' mod 4) 0); auto.
+    destruct (bgo_spec h' rec st root kvs b i rp E E st' b' n' d Hrec Hinv Hh Hl L (wf_E h') (wf_E h') I I I I G)
+      as [(X1 & X2 & X3 & X4 & X5 & X6)|B]; auto; try (unfold BatchRefine1.crep; destruct (Nat.eqb (h' mod 4) 0); auto; fail).
+    left. split; [exact X1|]. split; [exact X2|]. split; [exact X3|]. split; [exact X4|]. split; [exact X5|].
+    intros _ _ Hne. congruence.
   - (* a shortcut: its pair joins the keys, its cells are cleared *)
     cbn [BatchRep.lrep] in R. destruct R as (R1 & R2 & C1 & C2). simpl in W, V.
     rewrite R1, R2 in Eb.
@@ -364,7 +375,7 @@ Proof.
     rewrite (hash_of_app32 _ _ Lk), (hash_of_app32 _ _ V) in Eb.
     rewrite key_roundtrip in Eb by lia.
     rewrite (masc_spec sk sv kvs Sk Nn) in Eb |- *.
-    set (st1 := if Nat.eqb i 0 then delete_old_node atomic st root false else st) in *.
+    set (st1 := if Nat.eqb i 0 then delete_old_node atomic climit st root (S h') false else st) in *.
     assert (Hinv1 : inv_st st1) by (unfold st1; destruct (Nat.eqb i 0); [apply inv_delete|]; auto).
     set (b1 := bset (bset b (2 * i + 1) []) (2 * i + 2) []) in *.
     assert (Lb1 : length b1 = 31) by (unfold b1; rewrite !bset_length; exact L).
@@ -384,23 +395,31 @@ Proof.
     destruct (add_shortcut sk sv kvs) as [|x kvs'] eqn:Ea.
     + left. injection Eb as <- <- <- <-. simpl.
       split; [reflexivity|]. split; [reflexivity|]. split; [exact Hinv1|]. split; [exact Lb1|].
-      intros _. split; [|exact Fr1]. apply clean_from_children; auto.
+      split; [intros _; split; [|exact Fr1]; apply clean_from_children; auto|].
+      intros Hi0 Hcl _ bx Hx. exfalso. revert Hx. unfold st1. subst i. cbn [Nat.eqb].
+      unfold delete_old_node. simpl. apply Nat.leb_le in Hcl. rewrite Hcl. rewrite alookup_aremove_same. discriminate.
     + assert (Gk : good (S h') (x :: kvs')).
       { split; [exact Ka|]. split; [exact Sa|]. split; [discriminate|]. exact (eq_ind _ bvals32 Va _ Ea). }
       destruct (bgo_spec h' rec st1 root (x :: kvs') b1 i rp E E st' b' n' d Hrec Hinv1 Hh Hl Lb1 (wf_E h') (wf_E h') I I I I Gk)
-        as [(A1 & A2 & A3 & A4 & A5)|B]; auto.
+        as [(A1 & A2 & A3 & A4 & A5 & A8)|B]; auto.
       * unfold BatchRefine1.crep. destruct (Nat.eqb (h' mod 4) 0); auto.
       * unfold BatchRefine1.crep. destruct (Nat.eqb (h' mod 4) 0); auto.
-      * left. split; [exact A1|]. split; [exact A2|]. split; [exact A3|]. split; [exact A4|].
-        intros Hi0. destruct (A5 Hi0) as [A6 A7]. split; [exact A6|].
-        intros j Hj Hu. rewrite A7 by auto. apply Fr1; auto.
+      * left. split; [exact A1|]. split; [exact A2|]. split; [exact A3|]. split; [exact A4|]. split.
+        -- intros Hi0. destruct (A5 Hi0) as [A6 A7]. split; [exact A6|].
+           intros j Hj Hu. rewrite A7 by auto. apply Fr1; auto.
+        -- intros Hi0 Hcl _. apply (A8 Hi0 Hcl). left. unfold st1. subst i. cbn [Nat.eqb].
+           unfold delete_old_node. simpl. apply Nat.leb_le in Hcl. rewrite Hcl. apply alookup_aremove_same.
   - (* an interior node *)
     cbn [BatchRep.lrep pred] in R. destruct R as (_ & R1 & R2 & R3).
-    simpl in W, V, C. destruct W as [Wl Wr]. destruct V as [Vl Vr]. destruct C as (_ & Cal & Car).
+    simpl in W, V, C. destruct W as [Wl Wr]. destruct V as [Vl Vr]. destruct C as (Csz & Cal & Car).
     destruct kvs as [|kv0 kvs0] eqn:Ek; [congruence|]. rewrite <- Ek in *.
     rewrite R1, R2 in Eb.
-    apply (bgo_spec h' rec st root kvs b i rp l r st' b' n' d); auto;
-      unfold BatchRefine1.crep; destruct (Nat.eqb (h' mod 4) 0); auto; tauto.
+    destruct (bgo_spec h' rec st root kvs b i rp l r st' b' n' d Hrec Hinv Hh Hl L Wl Wr Vl Vr Cal Car G)
+      as [(X1 & X2 & X3 & X4 & X5 & X6)|B]; auto; try (unfold BatchRefine1.crep; destruct (Nat.eqb (h' mod 4) 0); auto; tauto).
+    left. split; [exact X1|]. split; [exact X2|]. split; [exact X3|]. split; [exact X4|]. split; [exact X5|].
+    intros Hi0 Hcl _. apply (X6 Hi0 Hcl). right.
+    (* a canonical interior node has a non-empty child *)
+    destruct l; [right; destruct r; [exfalso; simpl in Csz; lia|discriminate|discriminate]|left; discriminate|left; discriminate].
 Qed.
 
 End Rf3.
